@@ -255,6 +255,21 @@ def c02(tr, acc, case):
         for et, n in expected_unhandled.items():
             if seen.get(et, 0) != n:
                 acc.violation({"mech": "unhandled_event_stream_count"}, f"{n} unaccepted {et} processed but {seen.get(et, 0)} UnhandledEvent on the stream", case)
+    # black box: a wait can only be answered by an event the run processed after that wait was first asked for
+    first_call, tick_n = {}, {}
+    for t in tr.ticks:
+        if t["tick"] == "TickAddEvent" and t.get("uid") is not None:
+            tick_n.setdefault(t["uid"], t["n"])
+    for r in tr.rec.log:
+        if r["k"] == "wait_call":
+            first_call.setdefault(r["wid"], r["n"])
+        elif r["k"] == "wait_ret" and r.get("got_uid") is not None:
+            acc.hit("wait_answer_order_eval")
+            tn = tick_n.get(r["got_uid"])
+            if tn is not None and r["wid"] in first_call and tn < first_call[r["wid"]]:
+                acc.violation({"mech": "wait_answered_by_event_processed_before_the_wait"},
+                              f"step {r['step']} (invocation uid={r['uid']}) got event uid={r['got_uid']} as its wait result although that event was processed "
+                              f"before this invocation first called wait_for_event", case)
     # black box (harness-side knowledge of who is waiting, independent of the engine's waiter list): in a run that got stuck,
     # a step invocation parked in wait_for_event whose type + requirements a later processed event satisfied must have got it
     if tr.quiescent and tr.outcome is None:
